@@ -71,7 +71,7 @@ type vc19Case struct {
 func vc19Reps(n int) int {
 	switch {
 	case n <= 5:
-		return lib.Scale(3, 6)
+		return lib.Scale(3, 4)
 	case n <= 16:
 		return lib.Scale(1, 3)
 	}
